@@ -1000,6 +1000,7 @@ func (fi *funcInfo) rangeFactsSeen(seen map[string]bool, ls ...Lin) []Lin {
 			}
 			out = append(out, assumedFacts(a)...)
 			out = append(out, classInvFacts(a)...)
+			out = append(out, fieldRangeFacts(a)...)
 			if t, ok := valAtomType[a]; ok {
 				if lo, hi := typeRange(t); lo != nil {
 					out = append(out, atom(a).sub(konstBig(lo)), konstBig(hi).sub(atom(a)))
